@@ -22,9 +22,28 @@ fn now_ns() -> u128 {
 }
 
 fn materialise(root: &Path, files: &Value) {
+    materialise_ordered(root, files, &Value::Null)
+}
+
+/// entries named in `order` are created first, in that order (directory
+/// enumeration order of some file systems follows creation order)
+fn materialise_ordered(root: &Path, files: &Value, order: &Value) {
     std::fs::create_dir_all(root).expect("harness: mkdir");
     if let Some(m) = files.as_object() {
-        for (rel, content) in m {
+        let mut seq: Vec<(&String, &Value)> = Vec::new();
+        if let Some(first) = order.as_array() {
+            for name in first.iter().filter_map(|n| n.as_str()) {
+                if let Some((k, v)) = m.get_key_value(name) {
+                    seq.push((k, v));
+                }
+            }
+        }
+        for (k, v) in m {
+            if !seq.iter().any(|(k2, _)| *k2 == k) {
+                seq.push((k, v));
+            }
+        }
+        for (rel, content) in seq {
             let p = root.join(rel);
             if let Some(parent) = p.parent() {
                 std::fs::create_dir_all(parent).expect("harness: mkdir -p");
@@ -84,9 +103,21 @@ pub fn verify(case: &Value, scratch: &Path, idx: usize) -> Value {
     let root = scratch.join(format!("c{}", idx));
     let _ = std::fs::remove_dir_all(&root);
     let links = root.join("links");
-    let work = root.join("work");
+    let mut work = root.join("work");
+    // optional: put the working directory on another file system (e.g. a tmpfs, whose directory enumeration
+    // order follows creation order); falls back to the scratch directory when that place is not usable
+    let mut alt_root: Option<std::path::PathBuf> = None;
+    if let Some(wr) = case.get("work_root").and_then(|v| v.as_str()) {
+        let cand = Path::new(wr)
+            .join(format!("itv-{}-c{}", std::process::id(), idx));
+        let _ = std::fs::remove_dir_all(&cand);
+        if std::fs::create_dir_all(cand.join("work")).is_ok() {
+            work = cand.join("work");
+            alt_root = Some(cand);
+        }
+    }
     materialise(&links, &case["files"]);
-    materialise(&work, &case["work_files"]);
+    materialise_ordered(&work, &case["work_files"], &case["work_order"]);
     let old_cwd = std::env::current_dir().expect("harness: cwd");
     std::env::set_current_dir(&work).expect("harness: chdir");
 
@@ -95,6 +126,14 @@ pub fn verify(case: &Value, scratch: &Path, idx: usize) -> Value {
     let step_name = case["step_name"].as_str();
     let link_dir = links.to_str().unwrap().to_string();
     let mut o = json!({});
+    o["work_root_used"] = json!(alt_root.is_some());
+    if let Ok(rd) = std::fs::read_dir(&work) {
+        // the enumeration order this run's working directory really has
+        o["work_enumeration"] = json!(rd
+            .flatten()
+            .map(|e| e.file_name().to_string_lossy().to_string())
+            .collect::<Vec<_>>());
+    }
 
     // caller key map; ids and keys are chosen independently by the generator
     let mut keymap_err = Value::Null;
@@ -194,6 +233,9 @@ pub fn verify(case: &Value, scratch: &Path, idx: usize) -> Value {
     o["work"] = json!(l);
     std::env::set_current_dir(&old_cwd).expect("harness: chdir back");
     let _ = std::fs::remove_dir_all(&root);
+    if let Some(a) = alt_root {
+        let _ = std::fs::remove_dir_all(&a);
+    }
     o
 }
 
